@@ -162,6 +162,9 @@ class DiameterAssociation(object):
         self.transport.close()
         self.transport = None
 
+        #: Wakes up whoever is blocked in get_message(): no message will come.
+        self.postprocess_recv_messages_ready.set()
+
 
     @staticmethod
     def _split_complete_messages(data_stream: bytes) -> tuple:
@@ -340,6 +343,11 @@ class DiameterAssociation(object):
                 self.postprocess_recv_messages_ready.wait()
                 diameter_conn_logger.debug("Got go ahead for "\
                                            "postprocess_recv_messages_ready")
+
+                if self.postprocess_recv_messages.empty():
+                    #: Woken up because the connection is over, not because 
+                    #: of a message: the loop condition ends the wait.
+                    continue
             else:
                 diameter_conn_logger.debug("No need to wait for go ahead for "\
                                            "postprocess_recv_messages_ready")
